@@ -310,6 +310,51 @@ example : floatToDec 128 20 0 (decodeF 11 52 4841369599423283201) = some 4503599
     floatToDec 128 20 0 (decodeF 11 52 13836183955189006336) = some (-3) := by decide
 
 
+/-! ## 6b. indirections: the cast sees the logical column only -/
+
+/-- **For every indirection, cast ∘ decode depends on the decoded logical column only**: if two
+encodings (run-end arrays with any runs outside their windows, dictionaries with unreferenced
+values, list children beyond the parent's window, …) decode to the same logical column, the
+cast of the decoded rows gives the same logical result in both modes, and strict mode fails on
+one iff it fails on the other. -/
+theorem encoded_cast_logical_only {ε α β} (decode : ε → List (α × Bool)) (f : α → Option β) (z : β)
+    (e1 e2 : ε) (h : logical (decode e1) = logical (decode e2)) :
+    logical (unaryOpt f z (decode e1)) = logical (unaryOpt f z (decode e2)) ∧
+    (tryUnary f z (decode e1)).map logical = (tryUnary f z (decode e2)).map logical :=
+  null_payload_irrelevant f z (decode e1) (decode e2) h
+
+/-- **The run-end "expand" arm as written (take the window, then cast) only sees the logical
+window**: two run arrays — whatever their run ends, values, offsets and the runs lying wholly
+outside the window — whose windows hold the same logical values cast to the same logical column
+in safe mode, and the strict cast of one fails iff the strict cast of the other does (and returns
+the same column).  A run outside the window therefore cannot make the strict cast fail. -/
+theorem ree_expand_window_only {α β} (f : α → Option β) (z : β) (d : α × Bool)
+    (re1 re2 : List Nat) (v1 v2 : List (α × Bool)) (o1 o2 len : Nat)
+    (h : ∀ i, i < len →
+      (let r := v1.getD (physIdx re1 (o1 + i)) d; if r.2 then some r.1 else none) =
+      (let r := v2.getD (physIdx re2 (o2 + i)) d; if r.2 then some r.1 else none)) :
+    logical (reeExpandSafe f z d re1 v1 o1 len) = logical (reeExpandSafe f z d re2 v2 o2 len) ∧
+    (reeExpandStrict f z d re1 v1 o1 len).map logical = (reeExpandStrict f z d re2 v2 o2 len).map logical := by
+  have hl : logical (reeTake d re1 v1 o1 len) = logical (reeTake d re2 v2 o2 len) := by
+    unfold logical reeTake
+    rw [List.map_map, List.map_map]
+    apply List.map_congr_left
+    intro i hi
+    exact h i (by simpa using hi)
+  exact null_payload_irrelevant f z _ _ hl
+
+/-- and the strict expand arm is the specification's strict cast of the window -/
+theorem ree_expand_strict_spec {α β} (f : α → Option β) (z : β) (d : α × Bool)
+    (re : List Nat) (v : List (α × Bool)) (o len : Nat) :
+    (reeExpandStrict f z d re v o len).map logical = strictSpec f (logical (reeTake d re v o len)) :=
+  tryUnary_logical f z _
+
+/-- non-vacuity: runs `[1000, 1, 2, 1000]` with ends `[2, 4, 6, 8]`, window `[2, 6)`: the strict
+cast to `u8` succeeds although the first and last run hold 1000 -/
+example : reeExpandStrict (numCast 0 255) 0 ((0 : Int), false) [2, 4, 6, 8]
+    [(1000, true), (1, true), (2, true), (1000, true)] 2 4 = some [(1, true), (1, true), (2, true), (2, true)] := by
+  decide
+
 /-! ## 7. tie to the source text -/
 
 /-- **Every constant and every critical expression the theorems above are about is still
@@ -317,10 +362,10 @@ present in `/repo` verbatim** (regenerated by `tools/translate.py` on every run)
 tables and limits, and the *shape* of the guards (`is_infallible_cast`, the half-away rounding
 arms, `(mul * input).round()`, the safe/strict closures of `cast_integer_to_decimal`,
 `unary_opt` / `try_unary`, `num_cast`, the unit-change arms, `parser_primitive!`,
-`is_validate_decimal_precision`).  An edit of any of them makes the item LOST and this
+`is_validate_decimal_precision`, and the take-then-cast order of the run-end expand arm).  An edit of any of them makes the item LOST and this
 obligation fail, which sends the check into its search mode. -/
 theorem source_shapes_present :
-    (SHAPE_UPSCALE_INFALLIBLE_lost ||
+    (SHAPE_REE_TAKE_THEN_CAST_lost || SHAPE_UPSCALE_INFALLIBLE_lost ||
      SHAPE_UPSCALE_FALLIBLE_lost ||
      SHAPE_DOWNSCALE_ROUND_lost ||
      SHAPE_DOWNSCALE_INFALLIBLE_lost ||
